@@ -49,6 +49,21 @@ func runPullRaw(sp sessionSpec, res *sessionResult) error {
 	if err != nil {
 		return err
 	}
+	r, rb := pullExchange(ctx, srv, d.Module, d.Flags, d.Fetch)
+	var found []string
+	for i, c := range d.Canaries {
+		if bytes.Contains(rb, unhex(c)) {
+			found = append(found, fmt.Sprint(i))
+		}
+	}
+	res.Parse = r + strings.Join(found, ",")
+	res.Stderr = tailStr(stderr.String(), 500)
+	return nil
+}
+
+// pullExchange: one hand-written pull against srv over buffered pipes.
+// Returns "class|names|" and everything the daemon sent.
+func pullExchange(ctx context.Context, srv *rsyncd.Server, module string, flags []string, fetch bool) (string, []byte) {
 	c2s, s2c := newBufPipe(), newBufPipe()
 	go func() {
 		srv.HandleDaemonConn(ctx, rsyncd.NewConnection(c2s, s2c, "127.0.0.1:1"))
@@ -64,7 +79,7 @@ func runPullRaw(sp sessionSpec, res *sessionResult) error {
 			if _, err := br.ReadString('\n'); err != nil {
 				return "no-greeting||"
 			}
-			io.WriteString(c2s, "@RSYNCD: 27\n"+d.Module+"\n")
+			io.WriteString(c2s, "@RSYNCD: 27\n"+module+"\n")
 			for {
 				l, err := br.ReadString('\n')
 				if err != nil {
@@ -78,7 +93,7 @@ func runPullRaw(sp sessionSpec, res *sessionResult) error {
 					return "refused||"
 				}
 			}
-			io.WriteString(c2s, strings.Join(d.Flags, "\n")+"\n\n")
+			io.WriteString(c2s, strings.Join(flags, "\n")+"\n\n")
 			if _, err := rdI32(br); err != nil {
 				return "badargs||"
 			}
@@ -120,7 +135,7 @@ func runPullRaw(sp sessionSpec, res *sessionResult) error {
 				}
 			}
 			quiet()
-			o := (&hostileSpec{}).fopts(d.Flags)
+			o := (&hostileSpec{}).fopts(flags)
 			mu.Lock()
 			fl := append([]byte{}, data.Bytes()...)
 			mu.Unlock()
@@ -142,7 +157,7 @@ func runPullRaw(sp sessionSpec, res *sessionResult) error {
 				names = append(names, fmt.Sprintf("%x", e.name))
 			}
 			sort.Strings(names)
-			if d.Fetch && derr == nil {
+			if fetch && derr == nil {
 				sorted := sortedEntries(ents)
 				for i, e := range sorted {
 					// a hostile client may request any index, e.g. that of a symbolic link
@@ -166,16 +181,7 @@ func runPullRaw(sp sessionSpec, res *sessionResult) error {
 	}
 	c2s.Close()
 	time.Sleep(20 * time.Millisecond)
-	var found []string
-	rb := raw.Bytes()
-	for i, c := range d.Canaries {
-		if bytes.Contains(rb, unhex(c)) {
-			found = append(found, fmt.Sprint(i))
-		}
-	}
-	res.Parse = r + strings.Join(found, ",")
-	res.Stderr = tailStr(stderr.String(), 500)
-	return nil
+	return r, raw.Bytes()
 }
 
 // C06: what a serving daemon discloses for request paths from a traversal grammar.
